@@ -11,10 +11,10 @@ set_option linter.unusedSimpArgs false
 
 /-! ### transitions: what was added to the trace and the log -/
 
-theorem StepTo.eq {P : Prog} {c c' : Cfg} (h : StepTo P c c') : c' = outCfg (step P c) := by
+theorem StepTo.eq {P : Prog} {c c' : Cfg} (h : StepTo P c c') : c' = sOutCfg (step P c) := by
   rcases h with h | ⟨o, h⟩
-  · exact outCfg_of_ok h
-  · exact outCfg_of_error h
+  · exact sOutCfg_of_ok h
+  · exact sOutCfg_of_error h
 
 theorem Trans.cases {P : Prog} {c c' : Cfg} (h : Trans P c c') : StepTo P c c' ∨ c.deliver = some c' := by
   cases h with
@@ -360,7 +360,7 @@ theorem DrawnTop_append_right {a b : List Tr} (h : DrawnTop (a ++ b)) : DrawnTop
     cases t <;> simp only [List.cons_append, DrawnTop] at h <;> first | exact ih h | exact ih h.2
 
 theorem DrawnTop_step {P : Prog} {c0 c : Cfg} (h0 : Started c0) (hr : Reach P c0 c) (h : DrawnTop (schedTr c.tr)) :
-    DrawnTop (schedTr (outCfg (step P c)).tr) := by
+    DrawnTop (schedTr (sOutCfg (step P c)).tr) := by
   rw [(step_stack P c).2]
   rcases schedEvs_cases c with h' | ⟨top, rest, _, h'⟩ | ⟨top, rest, hc, h'⟩ | ⟨w, s, h'⟩ <;> rw [h']
   · exact h
